@@ -1,4 +1,5 @@
 import Clikit.Lemmas.ParserInv
+import Clikit.Lemmas.Spelling
 /-!
 # C01 - parsing a well-formed command line recovers exactly the intended values
 
@@ -58,6 +59,87 @@ theorem arguments_listing (f : Fmt) (a : Args) :
     | none => simp [hd] at hx
     | some v => simp [hd] at hx; subst hx; exact hd
 
+/-! ## Every spelling of a line parses to the meaning of its items
+
+`SpellsLine f line sems` (Lemmas/Spelling.lean) relates a token list to the items it spells:
+positionals, `--name=value`, `--name value`, `--name`, `--name=`, `-n`, `-nVALUE`, `-n VALUE`,
+groups `-abc`, `-abnVALUE`, `-abn VALUE`, in any interleaving, optionally followed by `--` and
+arbitrary tokens.  Its side conditions are exactly the library's conventions (a separate value
+is non-empty and does not start with `-`; an option written without a value that could take one
+is followed by nothing or by a token starting with `-`; a positional before `--` is `""`, `"-"`
+or does not start with `-`).  `runSems` is the token-free meaning: each item updates the state
+by itself - no look-ahead, no push-back, no splitting. -/
+
+/-- **Parsing a spelled line gives exactly the meaning of its items - in strict and in lenient
+mode alike, for every format, every item list and every spelling.** -/
+theorem parse_spells (cv : Conv) (f : Fmt) (len : Bool) (line : List Str) (sems : List Sem)
+    (h : SpellsLine f line sems) : parse cv f len line = parseSem cv f len sems := by
+  have hl := loop_spells f len h St.empty
+  unfold loopF at hl
+  show (parseFromR true true St.empty cv f len line).1 = _
+  unfold parseFromR parseSem
+  simp only [if_true]
+  have h0 : ({ args := [], opts := [] } : St) = St.empty := rfl
+  rw [h0, hl]
+  cases afterLoop len (runSems f len sems St.empty) <;> rfl
+
+/-- two spellings of the same items parse to the same result -/
+theorem spellings_agree (cv : Conv) (f : Fmt) (len : Bool) (line line' : List Str) (sems : List Sem)
+    (h : SpellsLine f line sems) (h' : SpellsLine f line' sems) : parse cv f len line = parse cv f len line' := by
+  rw [parse_spells cv f len line sems h, parse_spells cv f len line' sems h']
+
+/-- the meaning of an option item for a single-valued option: the LAST occurrence wins -/
+theorem opt_single_last_wins (o : Opt) (v : Str) (σ : St) (hm : o.multi = false) :
+    storeOpt o o.long (some v) σ = .ok { σ with opts := dictSet o.long (.one (.str v)) σ.opts } := by
+  simp [storeOpt, hm]
+
+/-- the meaning of an option item for a multi-valued option: values accumulate in command-line order -/
+theorem opt_multi_in_order (o : Opt) (v : Str) (σ : St) (hm : o.multi = true) :
+    (dictGet? o.long σ.opts = none →
+      storeOpt o o.long (some v) σ = .ok { σ with opts := dictSet o.long (.many [.str v]) σ.opts }) ∧
+    (∀ l, dictGet? o.long σ.opts = some (.many l) →
+      storeOpt o o.long (some v) σ = .ok { σ with opts := dictSet o.long (.many (l ++ [.str v])) σ.opts }) := by
+  constructor
+  · intro h; simp [storeOpt, hm, h]
+  · intro l h; simp [storeOpt, hm, h]
+
+/-- a flag, or an optional-value option given without a value: `True`, resp. the option's default -/
+theorem opt_without_value (o : Opt) (σ : St) (hr : o.valReq = false) (hm : o.multi = false) :
+    storeOpt o o.long none σ =
+      .ok { σ with opts := dictSet o.long (if o.valOpt then .dflt o.default else .one (.bool true)) σ.opts } := by
+  simp [storeOpt, hr, hm]
+
+/-- the k-th positional goes to the k-th argument; surplus ones to a trailing multi-valued
+argument; anything else is "too many arguments" (strict) or ignored (lenient) -/
+theorem positional_kth (f : Fmt) (hnd : (f.fargs.map (·.key)).Nodup) (len : Bool) (v : Str) (σ : St)
+    (hi : ArgsInv f.fargs σ.args) :
+    (∃ σ', parseArgument f.fargs len v σ = .ok σ' ∧ ArgsInv f.fargs σ'.args ∧ σ'.opts = σ.opts) ∨
+    (parseArgument f.fargs len v σ = .error (.cannotParse, σ) ∧ len = false) :=
+  parseArgument_inv hnd hi
+
+/-- items never touch an option they do not name -/
+theorem runSem_other_option (f : Fmt) (len : Bool) (s : Sem) (σ σ' : St) (n : Str)
+    (h : runSem f len s σ = .ok σ') (hn : ∀ o v, s = .opt o v → o.long ≠ n) :
+    dictGet? n σ'.opts = dictGet? n σ.opts := by
+  cases s with
+  | pos v =>
+    simp only [runSem] at h
+    unfold parseArgument at h
+    split_all h
+    all_goals (first | cases h | skip)
+    all_goals (try (unfold appendArg at h; split_all h))
+    all_goals (first | cases h | skip)
+    all_goals rfl
+  | opt o v =>
+    have hne : (o.long == n) = false := by
+      have := hn o v rfl
+      simp [this]
+    simp only [runSem] at h
+    unfold storeOpt at h
+    split_all h
+    all_goals (first | cases h | skip)
+    all_goals simp [dictGet?_dictSet, hne]
+
 /-! ## Only declared names are ever set, and every stored value went through the conversion -/
 
 /-- Non-vacuity for the accessor theorems: a concrete parse on a format with a short name. -/
@@ -75,5 +157,33 @@ example : ∀ a, parse cvA fmtA false ["-n12".toList, "5".toList] = .ok a →
     a.option fmtA "n".toList = a.option fmtA "num".toList ∧ a.argumentAt fmtA 0 = a.argument fmtA "a".toList := by
   intro a _
   exact ⟨option_short_eq_long fmtA a fmtA.opts.head! "n".toList rfl rfl, argument_index_eq_name fmtA a 0 _ (by decide) rfl⟩
+
+
+/-! Non-vacuity of `parse_spells`: a grouped flag + value option taking the next token, a
+positional in between, `--name=value` and a `--` tail, on a format with a multi-valued argument. -/
+def oV : Opt := { long := "verbose".toList, short := some "v".toList, accepts := false, valReq := false, valOpt := false,
+                  multi := false, ty := .string, nullable := false, default := .scalar .none }
+def oN : Opt := { long := "name".toList, short := some "n".toList, accepts := true, valReq := true, valOpt := false,
+                  multi := false, ty := .string, nullable := false, default := .scalar .none }
+def fmtS : Fmt :=
+  { cmds := [], opts := [oV, oN],
+    args := [{ name := "rest".toList, required := false, multi := true, ty := .string, nullable := false,
+               default := .list [] }] }
+
+/-- `-vn bob x --name=al -- --y` spells: verbose, name=bob, positional x, name=al, positional --y -/
+example : SpellsLine fmtS ["-vn".toList, "bob".toList, "x".toList, "--name=al".toList, "--".toList, "--y".toList]
+    [.opt oV none, .opt oN (some "bob".toList), .pos "x".toList, .opt oN (some "al".toList), .pos "--y".toList] := by
+  have hV : ShortOK fmtS oV 'v' := ⟨rfl, rfl⟩
+  have hN : ShortOK fmtS oN 'n' := ⟨rfl, rfl⟩
+  have hNl : LongOK fmtS oN := ⟨rfl, by decide, by decide⟩
+  have g : GroupSpells fmtS (some "bob".toList) ["x".toList, "--name=al".toList, "--".toList, "--y".toList]
+      ['v', 'n'] [.opt oV none, .opt oN (some "bob".toList)] :=
+    .flag hV rfl (.sp hN rfl rfl)
+  exact .cons (.short (c := 'v') (by decide) g)
+    (.cons (.pos rfl) (.cons (.longEq hNl rfl (by decide)) (.tail (tail := ["--y".toList]))))
+
+example : parse cvA fmtS false ["-vn".toList, "bob".toList, "x".toList, "--name=al".toList, "--".toList, "--y".toList]
+    = .ok { args := [("rest".toList, .list [.str "x".toList, .str "--y".toList])],
+            opts := [("verbose".toList, .scalar (.bool true)), ("name".toList, .scalar (.str "al".toList))] } := by rfl
 
 end Clikit.Props.C01
